@@ -1215,7 +1215,15 @@ def to_timestamp(expression: exp.Expression) -> exp.Expression:
     See https://docs.snowflake.com/en/sql-reference/functions/to_timestamp
     """
 
-    if isinstance(expression, exp.UnixToTime):
+    if isinstance(expression, exp.UnixToTime) or (
+        # a negative number of seconds isn't parsed as UnixToTime
+        isinstance(expression, exp.Anonymous)
+        and isinstance(expression.this, str)
+        and expression.this.upper() == "TO_TIMESTAMP"
+        and len(expression.expressions) == 1
+        and isinstance(expression.expressions[0], exp.Neg)
+        and expression.expressions[0].this.is_number
+    ):
         return exp.Cast(
             this=expression,
             to=exp.DataType(this=exp.DataType.Type.TIMESTAMP, nested=False, prefix=False),
